@@ -9,7 +9,9 @@
  *               S = |p0|+|p1| + (|v0|+|v1|)ts + (|a0|+|a1|)ts^2 + (|j0|+|j1|)ts^3, eps = DBL_EPSILON = 2^-52,
  *               C = 2^8 / 2^13 / 2^19 for cubic / quintic / septic.  Calibration (DESIGN.md): worst ratio over 300 000
  *               random data sets on the unchanged code 20 / 532 / 2.8e4; re-measured by this harness and reported as
- *               worst_observed end3/..., end5/..., end7/... (thorough, seeds 1..5: see props_C15.py level_note).
+ *               worst_observed end3/..., end5/..., end7/...: thorough, seeds 1..5, 12.6M main-regime
+ *               data sets each: 18.0 / 578 / 3.48e4, i.e. >= 14x head-room.  A-priori worst case (all roundings aligned,
+ *               S concentrated in p): sum of term magnitudes 18 480 S (septic jerk) x about 12u = 1.1e5 eps S < 2^19 eps S.
  *   accessors   c0 == stored coefficients bitwise; c1/c2/c3[i] within 4 ulps of (i+k)!/i! * c[i+k] (at most 3 roundings).
  *   outputs     pos/vel/acc/jer(x) vs a __float128 Horner of the accessor coefficients, bound gamma_{2m} * sum|c_i||x|^i
  *               (m coefficients; the classical a-priori bound for Horner's rule, u = 2^-53), and vs the exact k-th
